@@ -177,7 +177,10 @@ CLAIMED["C08"] = dict(
          "int64-array tags extractElements never answers false when every query value is one of the 8-byte cells; and every lookup "
          "leaves the stored (cached, shared) dictionary values byte-for-byte intact - the postcondition that exposed a genuine "
          "defect (fixed, 7d51dee); (3) vararray.UnmarshalVarArray: memory safe and terminating on arbitrary bytes, makes progress, "
-         "changes nothing outside the decoded entry and nothing at all when the buffer holds no escape byte.",
+         "changes nothing outside the decoded entry and nothing at all when the buffer holds no escape byte; (4) part-level time "
+         "pruning of the measure engine (snapshot.getParts): every selected part's time range meets the query range, earlier "
+         "results are kept and the count is exact (unbounded); that no part meeting the range is discarded is a BOUNDED stand-in "
+         "(snapshots of at most 3 parts, complete unrolling), labelled bounded and not counted as proved.",
     note=COMMON_NOTE + "Assumed: xxhash.Sum64 deterministic; the unsafe 8-byte view of the hash variable is a deterministic function "
          "of its value; sync/atomic operations as single sequential steps (no interleaving of concurrent Adds); bytes.Equal kept as an "
          "uninterpreted relation; bytes.IndexByte/Clone contracts; bit sets smaller than 2^57 words; len(bits) > 0 is a precondition "
